@@ -268,7 +268,14 @@ func runScenario(sc scenario, judge bool) outcome {
 		key := fmt.Sprintf("wait=%v", sc.Wait)
 		if m < 0 {
 			// the senders may have run dry before the silence could show
-			if len(after) > sc.G && after[len(after)-1]-tOffer+50*time.Microsecond < w {
+			// at pause 0 the receive loop gets the send lock only once the mutex's starvation
+			// mode (1 ms of waiting) hands it over - the recorded finding; transmissions inside
+			// that latency do not yet contradict the silence
+			lockLatency := time.Duration(0)
+			if sc.Pause == 0 {
+				lockLatency = 2*time.Millisecond + 3*stall
+			}
+			if len(after) > sc.G && after[len(after)-1]-tOffer+50*time.Microsecond < w+lockLatency {
 				// everything that was still sent went out within less than the announced wait and
 				// then the senders had nothing left: nothing contradicts the silence, the further
 				// transmissions count as stragglers (judged by the straggler bound below)
@@ -503,7 +510,12 @@ func run(rr *mon.Run) {
 		case sc.Pause >= 2*time.Millisecond:
 			sc.Burst = 6 + 60/sc.G
 		default:
+			// at pause 0 a transmission takes microseconds: enough of them that the senders are
+			// still busy well after the receive loop has got hold of the send lock
 			sc.Burst = 200
+			if sc.Wait <= 10*time.Millisecond {
+				sc.Burst += 2400 / sc.G // decidable only when the work outlasts wait + lock latency
+			}
 		}
 		runtime.GOMAXPROCS([]int{2, 4, 16}[i%3])
 		out := runScenario(sc, true)
